@@ -231,7 +231,44 @@ def _normalise_symmetric_comparisons(tree: ast.AST) -> None:
 _LEAVES = (ast.Return, ast.Continue, ast.Break, ast.Raise)
 
 
+def _negated(test: ast.expr) -> ast.expr:
+    if isinstance(test, ast.UnaryOp) and isinstance(test.op, ast.Not):
+        return test.operand
+    return ast.copy_location(ast.UnaryOp(op=ast.Not(), operand=test), test)
+
+
+def _block_leaves(block) -> bool:
+    if not block:
+        return False
+    last = block[-1]
+    if isinstance(last, _LEAVES):
+        return True
+    if isinstance(last, ast.If) and last.orelse:
+        return _block_leaves(last.body) and _block_leaves(last.orelse)
+    return False
+
+
+def _branch_key(block) -> tuple:
+    is_error = any(
+        isinstance(n, ast.Call) and ((dotted_of(n.func) or "").split(".")[-1].endswith("Error") or (dotted_of(n.func) or "") == "assert_never")
+        for st in block for n in ast.walk(st)
+    )
+    size = sum(1 for st in block for _ in ast.walk(st))
+    return (0 if is_error else 1, size)
+
+
+def _chain_has_final_else(st: ast.If) -> bool:
+    cur = st
+    while len(cur.orelse) == 1 and isinstance(cur.orelse[0], ast.If):
+        cur = cur.orelse[0]
+    return bool(cur.orelse)
+
+
 def _normalise_else_after_leave(tree: ast.AST) -> None:
+    """Canonical form of ``if c: A else: B`` when a branch always leaves (ends in return / continue / break / raise): the leaving
+    branch is the body (the test negated if necessary) and the other branch follows the conditional; when both leave, the test
+    is the positive one.  All of ``if c: A; return`` + ``B``, ``if c: A; return  else: B`` and ``if not c: B  else: A; return``
+    read the same."""
     changed = True
     while changed:
         changed = False
@@ -245,16 +282,32 @@ def _normalise_else_after_leave(tree: ast.AST) -> None:
                 i = 0
                 while i < len(block):
                     st = block[i]
-                    if (
-                        isinstance(st, ast.If)
-                        and st.orelse
-                        and isinstance(st.body[-1], _LEAVES)
-                        and not (len(st.orelse) == 1 and isinstance(st.orelse[0], ast.If))
-                    ):
+                    if isinstance(st, ast.If) and len(st.orelse) == 1 and isinstance(st.orelse[0], ast.If) and _block_leaves(st.body) \
+                            and not _chain_has_final_else(st):
+                        # ``if c: leave  elif d: X`` without a final ``else`` is ``if c: leave`` followed by ``if d: X``
                         rest = st.orelse
                         st.orelse = []
                         block[i + 1:i + 1] = rest
                         changed = True
+                    elif isinstance(st, ast.If) and st.orelse and not (len(st.orelse) == 1 and isinstance(st.orelse[0], ast.If)):
+                        body_leaves = _block_leaves(st.body)
+                        else_leaves = _block_leaves(st.orelse)
+                        if body_leaves and else_leaves:
+                            # both leave: the order of the branches is free; the error branch stands first, then the smaller one,
+                            # then the one under the positive test
+                            kb, ke = _branch_key(st.body), _branch_key(st.orelse)
+                            if ke < kb or (ke == kb and isinstance(st.test, ast.UnaryOp) and isinstance(st.test.op, ast.Not)):
+                                st.test = _negated(st.test)
+                                st.body, st.orelse = st.orelse, st.body
+                        elif else_leaves and not body_leaves and not (len(st.body) == 1 and isinstance(st.body[0], ast.If)):
+                            st.test = _negated(st.test)
+                            st.body, st.orelse = st.orelse, st.body
+                            body_leaves = True
+                        if body_leaves:
+                            rest = st.orelse
+                            st.orelse = []
+                            block[i + 1:i + 1] = rest
+                            changed = True
                     i += 1
 
 
@@ -271,9 +324,9 @@ class Module:
         except SyntaxError as exc:
             raise AnalysisError(f"cannot parse {relpath}: {exc}")
         _derename(self.name, self.tree)
+        _normalise_else_after_leave(self.tree)
         _normalise_ifs(self.tree)
         _normalise_symmetric_comparisons(self.tree)
-        _normalise_else_after_leave(self.tree)
         # local name -> dotted target ("pkg.mod" or "pkg.mod.symbol")
         self.imports: Dict[str, str] = {}
         self.functions: Dict[str, FuncInfo] = {}  # by qualname, incl. methods/nested
